@@ -177,7 +177,7 @@ Definition init (bs : bytes) (smp : bool) : st := mkst bs None smp [] [] 0 0 0 0
 (* ------------------------------------------------------------------ results *)
 
 (* hazard sites: where the code of the pinned tree panics (innermost /repo frame : class) *)
-Inductive msite := MNames | MUint8 | MArgs | MSlice | MMap | MNext | MStr | MObjMap.
+Inductive msite := MNames | MUint8 | MArgs | MSlice | MMap | MListMap | MObjMap | MArray | MNext | MStr.
 Inductive site :=
 | HRefIndex        (* decoderRefer.Read: r.ref[i] *)
 | HClassIndex      (* Decoder.getStructInfo: dec.ref[index] *)
@@ -221,13 +221,14 @@ Fixpoint bnd {A B} (r : out A) (k : A -> st -> out B) : out B :=
 
 (* behaviour switches for the repairs that do not replace a panic (count checks, loops, allocations) *)
 Record fixes := mkfx {
-  fx_count : bool;      (* a count larger than the bytes left (in-memory input) is a decode error *)
-  fx_neg : bool;        (* a negative count is a decode error (slice length -1, array written before its start) *)
+  fx_count : msite -> bool;   (* per site: a count that is negative or larger than the bytes left (in-memory input) is a decode error *)
   fx_loop : bool;       (* count loops stop once dec.Error is set *)
   fx_next : bool;       (* next(n) does not allocate n bytes when the in-memory input is shorter *)
-  fx_str : bool }.      (* readStringAsBytes does not allocate utf16Length*3 when the in-memory input ended *)
-Definition pinned : fixes := mkfx false false false false false.
-Definition repaired : fixes := mkfx true true true true true.
+  fx_str : bool;        (* readStringAsBytes does not allocate utf16Length*3 when the in-memory input ended *)
+  fx_strmap : bool;     (* a reference to a map is not formatted with fmt.Sprint into a string (it may contain itself) *)
+  fx_refnil : bool }.   (* a reference to the valueless slot of the client codec is a decode error for every destination *)
+Definition pinned : fixes := mkfx (fun _ => false) false false false false false.
+Definition repaired : fixes := mkfx (fun _ => true) true true true true true.
 
 (* abstract values: just enough for map keys (hashable?), field / method names and the "simple" header *)
 Inductive aval :=
@@ -309,6 +310,26 @@ Fixpoint str_scan (fuel : nat) (fast : bool) (w : bytes) (off : nat) (n : Z) : s
     else ScDone off n
   end.
 
+(* the slow path of readStringAsBytes on an in-memory input (loadMore fails) *)
+Definition read_str_slow (fx : fixes) (n : Z) (w : bytes) (s : st) : out (option bytes) :=
+  let len := length w in
+  match str_scan (S len) false w 0 n with
+  | ScIndex => RUnmod 1                    (* not reached: off < length is tested first *)
+  | ScBad _ => ROk None (set_error s KUtf8)
+  | ScDone off n1 =>
+    if (off <? len) || ((off =? len) && (n1 <=? 0)%Z) then
+      ROk (Some (firstn off w)) (set_rest s (skipn off w) (err s) 1)
+    else
+      (* the input ended inside the string: data = make([]byte, 0, utf16Length*3); append; loadMore fails *)
+      let want := wrap_int (n1 * 3) in
+      let s1 := set_rest s [] (merge (err s) (Some EEOF)) 1 in
+      let s2 := add_excess s1 (Z.to_N n1) in
+      if fx_str fx then ROk (Some w) s2
+      else if (want <? 0)%Z then RHaz (HMakeNeg MStr) s (ROk (Some w) s2)
+      else if (max_alloc <? Z.to_N want)%N then RHaz (HAllocRange MStr) s (ROk (Some w) s2)
+      else ROk (Some w) (add_alloc s2 (Z.to_N want))
+  end.
+
 (* dec.readStringAsBytes(n) on an in-memory input; result: the bytes (None = nil slice) *)
 Definition read_str (fx : fixes) (n : Z) (s : st) : out (option bytes) :=
   if (n =? 0)%Z then ROk None s else
@@ -316,31 +337,17 @@ Definition read_str (fx : fixes) (n : Z) (s : st) : out (option bytes) :=
   | [] => ROk None (set_error s KEOF)
   | w =>
     let len := length w in
-    if (wrap_int (n * 3) <=? Z.of_nat len)%Z then
+    if (wrap_int (n * 3) <=? Z.of_nat len)%Z then       (* length >= utf16Length*3, in Go's 64-bit int *)
       match str_scan (S len) true w 0 n with
-      | ScIndex => RHaz HStrIndex s (ROk None (set_error s KUtf8))
+      | ScIndex =>
+        (* only when utf16Length*3 overflowed: code comparing without overflow takes the slow path *)
+        RHaz HStrIndex s (read_str_slow fx n w s)
       | ScBad _ => ROk None (set_error s KUtf8)
       | ScDone off _ =>
         if len <? off then RHaz HStrSlice s (ROk None (set_error s KUtf8))
         else ROk (Some (firstn off w)) (set_rest s (skipn off w) (err s) 1)
       end
-    else
-      match str_scan (S len) false w 0 n with
-      | ScIndex => RUnmod 1                    (* not reached: off < length is tested first *)
-      | ScBad _ => ROk None (set_error s KUtf8)
-      | ScDone off n1 =>
-        if (off <? len) || ((off =? len) && (n1 <=? 0)%Z) then
-          ROk (Some (firstn off w)) (set_rest s (skipn off w) (err s) 1)
-        else
-          (* the input ended inside the string: data = make([]byte, 0, utf16Length*3); append; loadMore fails *)
-          let want := wrap_int (n1 * 3) in
-          let s1 := set_rest s [] (merge (err s) (Some EEOF)) 1 in
-          let s2 := add_excess s1 (Z.to_N n1) in
-          if fx_str fx then ROk (Some w) s2
-          else if (want <? 0)%Z then RHaz (HMakeNeg MStr) s (ROk (Some w) s2)
-          else if (max_alloc <? Z.to_N want)%N then RHaz (HAllocRange MStr) s (ROk (Some w) s2)
-          else ROk (Some w) (add_alloc s2 (Z.to_N want))
-      end
+    else read_str_slow fx n w s
   end.
 
 Definition bytes_of (x : option bytes) : bytes := match x with Some b => b | None => [] end.
@@ -371,6 +378,9 @@ Definition read_datetime (s : st) : st :=
 Section Oracle.
 (* the library parsers (strconv, math/big, uuid, time): a finite table per case *)
 Variable orc : okind -> bytes -> option bool.
+(* the classes io.RegisterName published: wire name -> struct shape *)
+Variable registry : list (bytes * shape).
+Variable fx : fixes.
 
 Definition ask {A} (k : okind) (t : bytes) (f : bool -> out A) : out A :=
   match orc k t with Some b => f b | None => RAsk k t end.
@@ -432,7 +442,12 @@ Fixpoint convert (r : rent) (dest : shape) (s : st) : out (option aval) :=
     | _ => ROk (Some (aval_of_ref r)) s
     end
   (* reflect.String: strConverter (fmt.Sprint for everything that is not a string) *)
-  | _, SString => ROk (Some (match r with RStr t => AStr t | _ => AOther true end)) s
+  | _, SString =>
+    match r with
+    | RMapSI => if fx_strmap fx then ROk None s else ROk (Some (AOther true)) s   (* fmt.Sprint(map): unbounded if it contains itself *)
+    | RStr t => ROk (Some (AStr t)) s
+    | _ => ROk (Some (AOther true)) s
+    end
   (* reflect.Ptr *)
   | _, SPtr e =>
     if (is_src r dest && struct_kind e) || (is_src r e && negb (ptr_kind e)) then ROk (Some (AOther true)) s
@@ -464,6 +479,7 @@ Definition read_reference (dest : shape) (s : st) : out aval :=
   match nth_error (rrefs s1) (length (rrefs s1) - 1 - Z.to_nat i) with
   | None => RHaz HRefIndex s1 fixed
   | Some r =>
+    if match r with RNil => fx_refnil fx | _ => false end then fixed else
     bnd (convert r dest s1) (fun v s2 =>
     match v with
     | Some a => ROk a s2
@@ -473,9 +489,6 @@ Definition read_reference (dest : shape) (s : st) : out aval :=
 
 (* ------------------------------------------------------------------ counts and loops *)
 
-(* the classes io.RegisterName published: wire name -> struct shape *)
-Variable registry : list (bytes * shape).
-Variable fx : fixes.
 
 Fixpoint reg_lookup (nm : bytes) (l : list (bytes * shape)) : option shape :=
   match l with
@@ -486,13 +499,12 @@ Fixpoint reg_lookup (nm : bytes) (l : list (bytes * shape)) : option shape :=
 (* a count read from the wire, about to size an allocation of [per] bytes per element at site [m].
    Result: the count the loop will run to. *)
 Definition counted (m : msite) (per : N) (negpanics : bool) (n : Z) (s : st) : out Z :=
-  if (n <? 0)%Z then
-    if negpanics then RHaz (HMakeNeg m) s (ROk 0%Z (set_error s KDecode))
-    else if fx_neg fx then ROk 0%Z (set_error s KDecode) else ROk n s
-  else if fx_count fx && negb (fits (rest s) n) then ROk 0%Z (set_error s KDecode)
+  if fx_count fx m && ((n <? 0)%Z || negb (fits (rest s) n)) then ROk 0%Z (set_error s KDecode)
+  else if (n <? 0)%Z then
+    if negpanics then RHaz (HMakeNeg m) s (ROk 0%Z (set_error s KDecode)) else ROk n s
   else if (max_alloc <? Z.to_N n * per)%N then
     match m with
-    | MMap => ROk n s           (* makemap: overflow || mem > maxAlloc -> hint = 0 *)
+    | MMap | MListMap | MObjMap | MArray => ROk n s       (* makemap: overflow || mem > maxAlloc -> hint = 0; no allocation at all for the others *)
     | _ => RHaz (HAllocRange m) s (ROk 0%Z (set_error s KDecode))
     end
   else ROk n (add_alloc s (Z.to_N n * per)).
@@ -645,8 +657,8 @@ Definition map_entry (ks vs : shape) : N := 16 + size ks + size vs.
 (* mapDecoder.decodeMap *)
 Definition decode_map (ks vs : shape) (s : st) : out aval :=
   let '(n, s1) := read_int s in
-  let fixed_neg := if (n <? 0)%Z && fx_neg fx then set_error s1 KDecode else s1 in
-  bnd (counted MMap (map_entry ks vs) false (Z.max n 0) fixed_neg) (fun n' s2 =>
+  bnd (counted MMap (map_entry ks vs) false n s1) (fun n0 s2 =>
+  let n' := Z.max n0 0 in
   let s3 := add_ref s2 (RPtr (SMap ks vs)) in
   bnd (map_loop lf ks vs (stuck_alloc ks + stuck_alloc vs) n' [] s3) (fun kvs s4 =>
   ROk (match ks with SString => AMap kvs | _ => AOther false end) (skip1 s4))).
@@ -797,13 +809,15 @@ Definition dec_slice (e : shape) (tag : byte) (s : st) : out aval :=
 
 (* ---- [N]T : arrayDecoder, byteArrayDecoder *)
 Definition dec_array_list (n : nat) (e : shape) (s : st) : out aval :=
-  let '(c, s1) := read_int s in
-  let s2 := add_ref s1 (RPtr (SArray n e)) in
+  let '(c0, s1) := read_int s in
+  let bad := fx_count fx MArray && ((c0 <? 0)%Z || negb (fits (rest s1) c0)) in
+  let c := if bad then 0%Z else c0 in
+  let s2 := add_ref (if bad then set_error s1 KDecode else s1) (RPtr (SArray n e)) in
   let body := fun x => unit_of (rv e x) in
   if (c <? 0)%Z then
     (* n = count < 0: no element is read; for i := n; i < length; i++ { UnsafeSetIndex(array, i, emptyElem) } *)
     if Nat.eqb n 0 then ROk (AOther true) (skip1 s2)
-    else RHaz HArrayNeg s2 (ROk (AOther true) (set_error s2 KDecode))
+    else RHaz HArrayNeg s2 (ROk (AOther true) (skip1 (set_error s2 KDecode)))
   else
     let m := Z.min (Z.of_nat n) c in
     bnd (loop lf body (stuck_alloc e) m s2) (fun _ s3 =>
@@ -839,8 +853,8 @@ Definition dec_map (ks vs : shape) (tag : byte) (s : st) : out aval :=
   else if tag_is tag "a" then
     if list_as_map_ok ks then
       let '(n, s1) := read_int s in
-      let fixed_neg := if (n <? 0)%Z && fx_neg fx then set_error s1 KDecode else s1 in
-      bnd (counted MMap (map_entry ks vs) false (Z.max n 0) fixed_neg) (fun n' s2 =>
+      bnd (counted MListMap (map_entry ks vs) false n s1) (fun n0 s2 =>
+      let n' := Z.max n0 0 in
       let s3 := add_ref s2 (RPtr sh) in
       bnd (loop lf (fun x => unit_of (rv vs x)) (map_entry ks vs + stuck_alloc vs) n' s3) (fun _ s4 =>
       ROk (AOther false) (skip1 s4)))
@@ -874,10 +888,11 @@ Definition dec_struct (nm : bytes) (f : fields) (tag : byte) (s : st) : out aval
     let s2 := add_ref s1 (RPtr sh) in
     bnd (over_names lf (decode_field f) 0 c s2) (fun _ s3 => ROk (AOther true) (skip1 s3)))
   else if tag_is tag "m" then
-    let '(n, s1) := read_int s in
-    let s2 := add_ref s1 (RPtr sh) in
-    bnd (loop lf (fun x => bnd (rv SString x) (fun v x1 => decode_field f (str_of v) x1)) 0 n s2) (fun _ s3 =>
-    ROk (AOther true) (skip1 s3))
+    let '(n0, s1) := read_int s in
+    bnd (counted MObjMap 0 false n0 s1) (fun n s1' =>
+    let s2 := add_ref s1' (RPtr sh) in
+    bnd (loop lf (fun x => bnd (rv SString x) (fun v x1 => decode_field f (str_of v) x1)) 32 n s2) (fun _ s3 =>
+    ROk (AOther true) (skip1 s3)))
   else if tag_is tag "e" then ROk (AOther true) s
   else default_decode sh tag s.
 
@@ -1016,7 +1031,7 @@ Fixpoint args_loop (fuel k : nat) (m : method) (i : nat) (n : Z) (s : st) : out 
 (* serviceCodec.decodeArguments *)
 Definition decode_arguments (fuel : nat) (missing : bool) (m : method) (s : st) : out bool :=
   let '(tag, s1) := next_byte s in
-  if negb (tag_is tag "a") then ROk false s1 else
+  if negb (tag_is tag "a") then ROk (has_err s1) s1 else     (* return nil, decoder.Error  (/repo b5ed508) *)
   let s2 := reset_refs s1 in
   if missing then bnd (dec_tag fuel (SSlice SIface) tag s2) (fun _ s3 => ROk (has_err s3) s3)
   else
